@@ -499,12 +499,13 @@ def r9(ctx: Ctx) -> None:
     f = ctx.func(ALLOC, "Allocation._calculate_areas_and_centers")
     c = fold_sums(canon_function(f, ctx.model))
     s_ = ("self",)
-    loops = [st for st in c if st[0] == "for" and len(st) == 5 and st[2] == ("c", ("a", ("a", s_, "_module2rect"), "items"), (), ())]
+    from .common import dict_loops
+    loops = dict_loops(c, ("a", s_, "_module2rect"), top_only=True)
     ctx.site(f.where, "area of a module == sum over all its cells of ratio * cell area")
     ok_a = ok_c = False
-    if len(loops) == 1 and loops[0][1][0] == "tuple" and len(loops[0][1][1]) == 2:
-        mod, cells = loops[0][1][1]
-        body = fold_sums(loops[0][3])
+    if len(loops) == 1:
+        lp_, mod, cells = loops[0]
+        body = fold_sums(lp_[3])
         bd = deref(body, single_defs(body))
         b0 = ("b", 1, 0)
         rect = ("a", ("s", ("a", s_, "_allocations"), ("a", b0, "rect_index")), "rect")
